@@ -473,6 +473,52 @@ fn witnesses_text() -> Vec<(&'static str, Vec<u8>, &'static str)> {
     ]
 }
 
+/// corpus/C09/*.json: minimised past failures (gzip bytes, the JSON text, the value tree in the
+/// driver encoding, the outcome the document calls for); each must hold on the current tree and
+/// agree with the model
+fn corpus(rep: &mut Report, ctx: &Ctx, cases: &mut Vec<TieCase>) {
+    let mut files: Vec<PathBuf> = std::fs::read_dir("/verif/corpus/C09")
+        .map(|d| d.filter_map(|e| e.ok().map(|e| e.path())).collect())
+        .unwrap_or_default();
+    files.retain(|p| p.extension().map(|e| e == "json").unwrap_or(false));
+    files.sort();
+    for p in files {
+        let v: serde_json::Value = match std::fs::read_to_string(&p).ok().and_then(|t| serde_json::from_str(&t).ok()) {
+            Some(v) => v,
+            None => {
+                rep.notes.push(format!("corpus file {} is not JSON", p.display()));
+                continue;
+            }
+        };
+        let case = &v["case"];
+        let (Some(gzh), Some(tree), Some(spec)) = (case["gz_hex"].as_str(), case["tree"].as_str(), case["spec"].as_str()) else {
+            rep.notes.push(format!("corpus file {} is not a C09 gcov.json case", p.display()));
+            continue;
+        };
+        let gz = unhex(gzh);
+        let (out, site) = impl_gz(ctx, &gz);
+        rep.count("corpus.cases");
+        rep.case(&format!("corpus {}", gzh), true);
+        if out != spec {
+            rep.fail(
+                "oracle",
+                None,
+                format!("corpus case {}: parse_gcov_gz gives {} instead of {}", p.display(), out, spec),
+                case.clone(),
+            );
+        }
+        cases.push(TieCase {
+            req: format!("gcov.json {}", tree),
+            impl_out: out,
+            site,
+            bytes: gz,
+            json_text: case["json"].as_str().map(|s| s.to_string()),
+            is_text: false,
+            oracle_failed: false,
+        });
+    }
+}
+
 pub fn run(rep: &mut Report) {
     rep.rule = "text: reports of 0-6 file sections (shuffled lcount/function/branch/other records; negative, zero, \
                 u64::MAX and >2^64 counts; '+' and leading zeros; names with commas, colons, UTF-8; sections without \
@@ -487,6 +533,9 @@ pub fn run(rep: &mut Report) {
     let ctx = Ctx::new(rep);
     let mut rng = Rng::new(rep.seed ^ 0xC09);
     let mut cases: Vec<TieCase> = vec![];
+
+    // ---- corpus/C09/*.json: minimised past failures, replayed first ------------------------------
+    corpus(rep, &ctx, &mut cases);
 
     // ---- fixed witnesses ------------------------------------------------------------------------
     for (name, bytes, want) in witnesses_text() {
@@ -694,9 +743,15 @@ fn witnesses_json(rng: &mut Rng) -> Vec<(&'static str, Vec<u8>, Option<J>, Optio
         ("gcc_version".into(), J::Str("9".into())),
         ("data_file".into(), J::Str("a.gcda".into())),
     ]), BAD, rng);
-    add("float_2^64_saturates", doc(vec![line(J::Num(json::N::Flt { text: "1.8446744073709552e19".into(), neg: false, m: 1, e: 64 }))]), "ok K612e63=L7:18446744073709551615;B;F", rng);
-    // Lean C09_json_two_pow_64_is_accepted_and_saturated: the integer literal 2^64 is an f64 for serde_json
-    add("int_literal_2^64_saturates", doc(vec![line(J::Num(json::N::Flt { text: "18446744073709551616".into(), neg: false, m: 1, e: 64 }))]), "ok K612e63=L7:18446744073709551615;B;F", rng);
+    // Lean C09_json_two_pow_64_is_rejected (former finding C09-json-counter-2pow64-saturates, repaired in
+    // /repo 5cfb47a; the same two inputs are in corpus/C09 and replayed first)
+    add("float_2^64_rejected", doc(vec![line(J::Num(json::N::Flt { text: "1.8446744073709552e19".into(), neg: false, m: 1, e: 64 }))]), BAD, rng);
+    add("int_literal_2^64_rejected", doc(vec![line(J::Num(json::N::Flt { text: "18446744073709551616".into(), neg: false, m: 1, e: 64 }))]), BAD, rng);
+    // the largest f64 below 2^64 is accepted as itself (Lean C09_json_float_counter_accepted_iff_below_two_pow_64)
+    add("largest_f64_below_2^64", doc(vec![line(J::Num(json::N::Flt { text: "1.844674407370955e19".into(), neg: false, m: (1 << 53) - 1, e: 11 }))]), "ok K612e63=L7:18446744073709549568;B;F", rng);
+    // the 17-digit spelling of the same decimal: serde_json's default float reader (no `float_roundtrip`)
+    // is not correctly rounded and reads it as 2^64 (`reads_back` confirms the tree), so it is rejected
+    add("literal_1.8446744073709550e19_reads_as_2^64", doc(vec![line(J::Num(json::N::Flt { text: "1.8446744073709550e19".into(), neg: false, m: 1, e: 64 }))]), BAD, rng);
     // Lean C09_json_fractional_counter_truncates
     add("float_0.5_truncates_to_0", doc(vec![line(J::Num(json::N::Flt { text: "0.5".into(), neg: false, m: 1, e: -1 }))]), "ok K612e63=L7:0;B;F", rng);
     // Lean C09_json_unknown_keys_irrelevant / exDoc13: gcov 13/14 keys at every level, keys out of gcov's order
@@ -794,6 +849,27 @@ pub fn replay(rep: &mut Report, case: &serde_json::Value) {
     }
 }
 
+/// `c09 --probe-float <literal>`: how serde_json (as built for /repo) reads a number literal, and
+/// what parse_gcov_gz makes of it as a line count
+fn probe_float(lit: &str) {
+    let v: serde_json::Value = serde_json::from_str(lit).expect("not a JSON value");
+    if let serde_json::Value::Number(n) = &v {
+        println!("is_u64={} is_f64={} as_f64={:?} bits={:x?} as_u128_trunc={:?}", n.is_u64(), n.is_f64(), n.as_f64(),
+                 n.as_f64().map(|f| f.to_bits()), n.as_f64().map(|f| f as u128));
+    }
+    let text = format!("{{\"format_version\":\"1\",\"gcc_version\":\"9\",\"data_file\":\"d\",\"files\":[{{\"file\":\"a.c\",\"functions\":[],\"lines\":[{{\"line_number\":7,\"count\":{},\"unexecuted_block\":false,\"branches\":[]}}]}}]}}", lit);
+    let dir = std::env::temp_dir().join("c09probe");
+    std::fs::create_dir_all(&dir).unwrap();
+    let p = dir.join("p.gcov.json.gz");
+    std::fs::write(&p, json::gzip(text.as_bytes())).unwrap();
+    println!("{}", show_outcome(&guarded(move || grcov::parse_gcov_gz(&p))));
+}
+
 fn main() {
+    let args: Vec<String> = std::env::args().collect();
+    if args.len() == 3 && args[1] == "--probe-float" {
+        probe_float(&args[2]);
+        return;
+    }
     corrlib::run_main("C09", run, replay);
 }
